@@ -144,6 +144,9 @@ def demography(spec):
         return None
     d = pg.Demography(**kw)
     for e in spec.get('added_events', []):
+        # a user may look epochs up while still assembling the demography: later additions must be honoured
+        for t in spec.get('probe_times', []):
+            d.get_epoch(t)
         d.add_event(event(e))
     return d
 
@@ -159,8 +162,16 @@ def coalescent(spec, **over):
               parallelize=spec.get('parallelize', False))
     loci = spec.get('loci', 1)
     if loci == 2 or spec.get('locus_config'):
-        kw['loci'] = pg.LocusConfig(n=loci, n_unlinked=spec.get('n_unlinked', 0),
-                                    recombination_rate=spec.get('recombination_rate', 0) or 0)
+        route = spec.get('rec_route', 'locus_config')
+        rr = spec.get('recombination_rate', 0) or 0
+        if route == 'kwarg':          # rate given to the Coalescent next to a LocusConfig carrying the linkage
+            kw['loci'] = pg.LocusConfig(n=loci, n_unlinked=spec.get('n_unlinked', 0))
+            kw['recombination_rate'] = rr
+        elif route == 'int' and not spec.get('n_unlinked'):      # loci=2, recombination_rate=r
+            kw['loci'] = loci
+            kw['recombination_rate'] = rr
+        else:
+            kw['loci'] = pg.LocusConfig(n=loci, n_unlinked=spec.get('n_unlinked', 0), recombination_rate=rr)
     if spec.get('start_time'):
         kw['start_time'] = spec['start_time']
     if spec.get('end_time') is not None:
